@@ -4,7 +4,7 @@
    Part B: the guarded equivalence with the specification (Spec/PipelineSpec.v). *)
 From Coq Require Import ZArith List String Bool Ascii Permutation.
 From Verif Require Import Value PyEq Path Update Filter Coll Expr Pipeline PipelineSpec PipelineGuard.
-From Verif Require Import C03Base C03Laws C03Indep C03IndepProject C03Unwind C03Group C03Stages C03Pipeline.
+From Verif Require Import C03Base C03Laws C03Indep C03IndepProject C03Unwind C03Group C03Stages C03StageUnwind C03Pipeline.
 From Verif Require Import C03StageProject C03StageProject2 C03StageGroup C03GroupSort C03StageGroup2 C03Pipeline2.
 Import ListNotations.
 Open Scope Z_scope.
@@ -183,7 +183,8 @@ Print Assumptions C03_facet_fields.
 
 (* The guarded equivalence with the specification, for the pipelines whose operators (also
    inside the sub-pipelines of $facet, recursively) are $match, $sort, $skip, $limit, $count,
-   $unwind without includeArrayIndex, $addFields / $set, $replaceRoot (the expressions through
+   $unwind (any option document, includeArrayIndex with plain or dotted index names too:
+   C03_stage_unwind below), $addFields / $set, $replaceRoot (the expressions through
    C04_expression_env), $lookup in the localField / foreignField form (the equality filter
    through C01) and $facet (c03_covered, Proofs/C03Pipeline.v; the $sort key paths are inside
    the model).
@@ -194,7 +195,7 @@ Print Assumptions C03_facet_fields.
        agrees (spec_aggregate db docs p) (aggregate db docs p) <> Some false
    What is missing: $group with keys that are arrays (the order of the library's sort on
    arrays has not been related to the equality of the specification), $project with dotted names,
-   $unwind with includeArrayIndex, and every stage downstream of a $project or a $group (there
+   and every stage downstream of a $project or a $group (there
    the specification and the library differ by the order of the top-level keys, and after
    $group the stream is unordered, so the stage lemmas have to be stated up to that equivalence
    on their INPUT as well: the specification's stages would have to be shown invariant under
@@ -233,6 +234,18 @@ Theorem C03_stage_ok : forall db o op l,
   rel (spec_stage db op o (mkStream l true [])) (run_stage db op o l).
 Proof. exact stage_ok_all. Qed.
 Print Assumptions C03_stage_ok.
+
+(* $unwind, whatever its option document (no covered-class hypothesis): with includeArrayIndex
+   the specification decides the index names whose dotted components are plain (not empty, no
+   "$" first) and that are neither a prefix of the path nor below it, on documents in which the
+   parent of the index name is an existing sub-document (and, under
+   preserveNullAndEmptyArrays, the path holds a non-empty array or a scalar); there the
+   library writes the same index (null for a scalar) into the same place, after the element *)
+Theorem C03_stage_unwind : forall db o l,
+  stage_reasons db "$unwind" o l = 0 ->
+  rel (spec_stage db "$unwind" o (mkStream l true [])) (run_stage db "$unwind" o l).
+Proof. exact stage_unwind. Qed.
+Print Assumptions C03_stage_unwind.
 
 (* ------------------------------------------------------------------ part B, continued *)
 
